@@ -47,7 +47,7 @@ PLAN = {
         'note': COMMON_TRUST + 'okkhor (avro) is an uninterpreted function; SplittedString::split is proved equal to split_spec in unit split (real body: closure find, right-to-left char_indices loop with escape/colon automaton, both split_at calls on proved char boundaries); what stays assumed there are two std contracts (str::find with a closure returns the byte offset of the first accepted code point; char_indices yields (offset, code point) and is a well-behaved iterator); the UTF-8 facts (offsets of code points are char boundaries, cutting the bytes there cuts the code points there, str::len is the offset of the end) are PROVED from vstd::utf8 (encode / decode lemmas); the bounded check split stays as a cross-check of the two std contracts.',
     },
     'C04': {
-        'bounded': ['layout_values', 'update_engine'], 'kani': ['k_modifiers_plane'],
+        'bounded': ['layout_values', 'layout_api', 'update_engine'], 'kani': ['k_modifiers_plane'],
         'level': 'proof',
         'units': ['layout', 'layout_get', 'fixed_pkv_off', 'fixed_session'],
         'technique': 'Verus: get_char_for_key for all u16 codes vs riti.h-generated table; plane chosen by the AltGr bit only; frame/append postconditions of get_suggestion',
